@@ -50,4 +50,5 @@ if "--all" in sys.argv:
     for k in list(sp["triggers"]):
         if k not in inv:
             del sp["triggers"][k]
+sp["names"] = sorted(triggers.name_universe(F))
 json.dump(sp, open(p, "w"), indent=1)
